@@ -147,7 +147,7 @@ def gen_case(r, index, tier):
         ops.append({"op": "rect_solution", "seed": r.below(1 << 30), "extra": r.randint(0, 3), "nnets": r.randint(0, 4),
                     "times": r.randint(1, 2)})
     elif scen == "legal":
-        die = designs.gen_die(r, max_regions=0)
+        die = designs.gen_die(r, max_regions=0, scale_exp=r.weighted([(0, 4), (-1, 2), (1, 2), (2, 1), (-3, 1), (-4, 1)]))
         nl = designs.gen_netlist(r, die, nmods=r.randint(1, 4), kinds=["soft", "soft", "hard", "fixed"], allow_terminals=False,
                                  allow_regions=False)
         for m in nl["modules"]:
@@ -156,6 +156,9 @@ def gen_case(r, index, tier):
                 m["boxes"] = designs.stog_boxes(r, bs[0]) if bs and r.chance(0.5) else (bs or [(0, 0, 1, 1)])
                 m["boxes"] = [b for b in m["boxes"] if b[0] >= 0 and b[1] >= 0]
             m.pop("area_regions", None)
+        for e in nl["nets"]:
+            if r.chance(0.2):
+                e["w"] = r.choice([1e-05, 2e-07, 3000000.0, 0.000125])   # very weak / very strong nets
         ops.append({"op": "load_net", "net": nl, "die": die, "via": "tree", "ints": r.chance(0.3)})
         ops.append({"op": "load_die", "die": die, "via": "tree", "with_net": False})
         ops.append({"op": "legal", "ratio": r.choice([2.0, 3.0]),
